@@ -4,6 +4,7 @@ import ShexerModel.Model.Shacl
 import ShexerModel.Model.Targets
 import ShexerModel.Model.Text
 import ShexerModel.Model.MinIri
+import ShexerModel.Model.MergeE
 import ShexerModel.Spec.Counts
 import ShexerModel.Spec.ShExSem
 open Shexer
@@ -130,6 +131,15 @@ def runCase (st : DState) (what id : String) : List String :=
             "S\t" ++ (Text.tuneToken ns s.prop).render ++ "\t" ++
               "|".intercalate (s.types.map fun ty =>
                 if s.prop == st.cfg.instProp then "[" ++ (Text.tuneToken ns ty).render ++ "]" else (Text.tuneToken ns ty).render)
+    | "merge" =>
+      -- unit level: `MergeableConstraints.merge_group` on the statements of the last shape, failure modes included
+      match st.shapes.back? with
+      | none => ["bad-op\tno group"]
+      | some sh =>
+        match MergeE.mergeGroupE st.cfg sh.stmts with
+        | .ok r => "OK" :: Emit.stmtLines r
+        | .error (.attributeOnNone slot) => ["EXC\tAttributeError\t" ++ slot]
+        | .error (.indexOutOfRange w) => ["EXC\tIndexError\t" ++ w]
     | "miniri" =>
       -- per final shape: stem, shape example, and for every statement the index (in the document) of the triple
       -- whose value is the constraint example
@@ -254,6 +264,11 @@ def stepLine (st : DState) (line : String) : DState × List String :=
     (match st.shapes.back? with
      | some sh => ({ st with shapes := st.shapes.pop.push { sh with stmts := sh.stmts ++ [stm] } }, [])
      | none => (st, ["bad-op\tS before SH"]))
+  | ["SN", inv, p, ty, card, n] =>
+    let stm : Shexer.Stmt := { prop := p, types := [ty], card := parseCard card, n := n.toNat?.getD 0, inverse := inv == "I" }
+    (match st.shapes.back? with
+     | some sh => ({ st with shapes := st.shapes.pop.push { sh with stmts := sh.stmts ++ [stm] } }, [])
+     | none => (st, ["bad-op\tSN before SH"]))
   | ["SEL", n, ls] => ({ st with selLines := st.selLines.push (n, splitList ls) }, [])
   | ["Q", c, inv, p, ty, card] =>
     ({ st with queries := st.queries.push { cls := c, inv := inv == "I", prop := p, ty := ty, card := parseCard card } }, [])
